@@ -231,7 +231,19 @@ def validate {σ} (P : AesPrims) (S : Src σ) (mode : AesMode) (dl : Option Nat)
 
 /-- `AesReaderValid::read(&mut buf)` with `buf.len() = n`; returns the bytes left in `buf[..read]`. -/
 def Valid.read {σ} (P : AesPrims) (S : Src σ) (v : Valid σ) (n : Nat) : Out Bytes × Valid σ :=
-  if v.dataRemaining = 0 then (.ok [], v) else
+  if v.dataRemaining = 0 then
+    -- no ciphertext left; when there never was any (not yet finalized) the code is checked now, before
+    -- end-of-file is reported (repair of K-I)
+    if v.finalized then (.ok [], v) else
+    let v := { v with finalized := true }
+    match readExact S v.inner AUTH_CODE_LENGTH with
+    | (.err e, s'') => (.err e, { v with inner := s'' })
+    | (.panic m, s'') => (.panic m, { v with inner := s'' })
+    | (.ok code, s'') =>
+      let computed := (P.hmac v.hmacKey v.hmacMsg).take AUTH_CODE_LENGTH
+      let v := { v with inner := s'', hmacMsg := [], ghostMac := some (computed, code) }
+      if computed ≠ code then (.err (.io .invalidData), v) else (.ok [], v)
+  else
   let bytesToRead := min v.dataRemaining n
   match S.rd v.inner bytesToRead with
   | (.err k, s') => (.err (.io k), { v with inner := s' })
